@@ -310,7 +310,12 @@ class Prop(Check):
     ID = "C24"
     LEAN_MODULE = "TextxVerif.Props.C24"
     THEOREMS = ["Rec.C24_bisim_sound", "Rec.C24_accept_iff", "Rec.C24_not_both", "Rec.C24_tables", "Rec.C24_check",
-                "Rec.C24_agree_partial", "Rec.C24_sep_forms_differ"]
+                "Rec.C24_agree_partial", "Rec.C24_sep_forms_differ",
+                "Rec.C24_bisim_sound_sep", "Rec.C24_accept_iff_sep", "Rec.C24_check_tx", "Rec.C24_unsep_agree",
+                "Rec.C24_agree_tx_partial", "Rec.C24_notrail_scan", "Rec.C24_notrail_table", "Rec.C24_lexok_table",
+                "Rec.C24_notrail_needed", "Rec.C24_accepts_example", "Rec.C24_trailing_example",
+                "Rec.C24_check_trap", "Rec.C24_agree_tx_run_partial", "Rec.C24_cleanrun_example",
+                "Rec.C24_unvisited_example", "Rec.C24_trailing_trap_example", "Rec.C24_never_bad"]
     DRIVER = "Drivers/Rec.lean"
     QUICK_CASES = 200
     THOROUGH_CASES = 6000
@@ -326,15 +331,18 @@ class Prop(Check):
                 "-> Gen/Grammars.lean, checked by Rec.check in Lean's kernel; hand-modelled: Rec.parse = acceptance abstraction "
                 "of Arpeggio's interpreter for models without ws/skipws overrides, eolterm, unordered groups, memoization "
                 "(comment-position cache and furthest-failure record left out); tie X: accept/reject of Rec.parse on both "
-                "graphs vs the real parsers; NOT proved: tx vs `unsep tx unproved` (RRELSequence / RRELPath `+=[sep]` against "
-                "rrel.py's `(x sep)* x`) - correspondence only (`txo_vs_tx_agree` in the evidence)")
+                "graphs vs the real parsers; tx vs `unsep tx unproved` (RRELSequence / RRELPath `+=[sep]` against rrel.py's "
+                "`(x sep)* x`): proved for every input whose run meets no trailing RREL separator (C24_agree_tx_run_partial, "
+                "hypothesis CleanRun evaluated by the driver on the instrumented graph `trap tx unproved`), correspondence "
+                "only for the others (`txo_vs_tx_agree`, `cleanrun_false_all_rejected` in the evidence)")
     ASSUMPTIONS = [
         "lexer hypotheses of C24_agree_partial (regexes marked non-empty never match empty; STRING = first of the two "
         "quoted-string regexes; \\w+ absorbs the builtin-name regex; \\+[mp]+: = first of multi/proxy flag regexes): facts "
         "about Python's re, checked on the token tables of every case by the Lean driver and exhaustively on short strings",
         "token identity = equal literal / equal parsed regex AST and flags (re._parser)",
         "unproved pairs: the two RREL separator repetitions (tx nodes listed in Gen.Grammars.unproved) - agreement with the "
-        "(x sep)* x formulation holds only in context; covered by correspondence on every case",
+        "(x sep)* x formulation is proved under CleanRun (the run meets no trailing separator; all accepted texts) or "
+        "NoTrailingSep (all positions); for texts with a trailing RREL separator it is covered by correspondence on every case",
         "compiler side = parse stage: TextXSyntaxError caused by NoMatch (DESIGN Reading)",
     ]
 
@@ -450,9 +458,22 @@ class Prop(Check):
             return f"lang.py parser {'accepts' if d else 'rejects'} but the recogniser on the generated lang graph says {out['lang']}"
         if t is not None and obs["tx"].get("other") is None and out["tx"] != want[t]:
             return f"textx.tx parser {'accepts' if t else 'rejects'} but the recogniser on the generated tx graph says {out['tx']}"
+        if out.get("trap") in ("ok", "fail") and not (out["trap"] == out["tx"] == out["txo"]):
+            return (f"instrumented run terminates with {out['trap']} (CleanRun holds) but tx gives {out['tx']} and the "
+                    f"(x sep)* x formulation {out['txo']}: contradicts theorem C24_agree_tx_run_partial (model bug)")
+        if out.get("trap") not in ("ok", "fail", "fuel"):
+            return f"model: instrumented graph gives {out.get('trap')}"
+        if out.get("trap") == "fuel" and out["tx"] == "ok":
+            return ("textx.tx accepts a text on which its run meets a trailing RREL separator (the instrumented run does "
+                    "not terminate): outside C24_agree_tx_run_partial and against the follow-set argument of the notes")
+        nt = out.get("notrail")
+        if not isinstance(nt, list) or any(h not in ("ends", "scan", "no", "long") for h in nt):
+            return f"model: driver did not evaluate the NoTrailingSep hypothesis: {nt}"
         if out["txo"] != out["tx"]:
+            covered = "no" not in nt
             return (f"unproved pair: tx gives {out['tx']} but the (x sep)* x formulation gives {out['txo']} "
-                    "(RREL separator repetitions are not equivalent in this context)")
+                    + ("although NoTrailingSep holds (contradicts theorem C24_unsep_agree: model bug)" if covered else
+                       "(trailing RREL separator: the two formulations are not equivalent in this context)"))
         if not out["lexok"]:
             return "lexer hypotheses of C24_agree_partial do not hold on the token tables of this text"
         return None
@@ -523,6 +544,9 @@ class Prop(Check):
     def extra_evidence(self, cases, obs, outs):
         acc = rej = 0
         agree = lexok = n = 0
+        nt_hold = nt_hold_acc = nt_false = nt_false_acc = 0
+        clean = clean_acc = unclean = 0
+        nt_how = {"ends": 0, "scan": 0, "no": 0, "long": 0}
         for c, o, m in zip(cases, obs, outs):
             if not isinstance(o, dict) or "compiler" not in o:
                 continue
@@ -534,9 +558,31 @@ class Prop(Check):
             if m and "tx" in m:
                 agree += m["tx"] == m["txo"]
                 lexok += bool(m["lexok"])
+                if m.get("trap") in ("ok", "fail"):
+                    clean += 1
+                    clean_acc += m["tx"] == "ok"
+                else:
+                    unclean += 1
+                nt = m.get("notrail") or []
+                for h in nt:
+                    nt_how[h] = nt_how.get(h, 0) + 1
+                if "long" in nt and "no" not in nt:
+                    pass
+                elif "no" in nt:
+                    nt_false += 1
+                    nt_false_acc += m["tx"] == "ok"
+                else:
+                    nt_hold += 1
+                    nt_hold_acc += m["tx"] == "ok"
         info = _CACHE.get("info") or {}
         lh = next((o["lexhyp"] for o in obs if isinstance(o, dict) and "lexhyp" in o), None)
         return {"texts": n, "accepted": acc, "rejected": rej, "txo_vs_tx_agree": agree, "lexer_hypotheses_hold": lexok,
+                # hypothesis of C24_agree_tx_run_partial (run level): texts on which the theorem speaks about tx itself
+                "cleanrun_holds": clean, "cleanrun_holds_accepted": clean_acc, "cleanrun_false_all_rejected": unclean,
+                # hypothesis of C24_agree_tx_partial (all positions): texts on which the theorem speaks about tx itself
+                "notrailingsep_holds": nt_hold, "notrailingsep_holds_accepted": nt_hold_acc,
+                "notrailingsep_false": nt_false, "notrailingsep_false_accepted": nt_false_acc,
+                "notrailingsep_how": nt_how,
                 "lexer_hypotheses_exhaustive": lh,
                 "unproved_pairs": [{"tx_node": i, "rule": (info["tx"]["nodes"][i].get("rule") if info else None)}
                                    for i in info.get("unproved", [])],
